@@ -277,7 +277,12 @@ inline Stats run_sharded(int nshards, const std::function<void(Worker &)> &body,
     else if (WEXITSTATUS(status) == 77) ci.how = "timeout";
     else ci.how = "exit " + std::to_string(WEXITSTATUS(status));
     std::string e = slurp(s.err); ci.stderr_tail = e.size() > 3000 ? e.substr(0, 3000) : e;
-    if (!s.sh->in_case) { fprintf(stderr, "ERROR: worker %d died outside a case (%s): %s\n", k, ci.how.c_str(), ci.stderr_tail.c_str()); exit(2); }
+    if (!s.sh->in_case) {
+      if (ci.casejson.empty()) { fprintf(stderr, "ERROR: worker %d died outside a case (%s): %s\n", k, ci.how.c_str(), ci.stderr_tail.c_str()); exit(2); }
+      // between two cases: the allocator (or a sanitizer) noticed damage done earlier; the case that finished last is the
+      // suspect and is re-run alone by the crash handler like a case that died inside
+      ci.how += " just after this case finished";
+    }
     total.add("worker_deaths");
     onCrash(ci, total);
     s.resume = ci.idx; s.restarts++; if (ci.how == "timeout") { s.timeouts++; total_timeouts++; }
